@@ -43,9 +43,9 @@ def val(role, name):
     return role.upper() if name == "x" else role.lower()
 
 
-def reads(tag, extra=()):
+def reads(tag, extra=(), skip=()):
     nodes = [("T", "[%s " % tag)]
-    for n in ("x", "y", "z", "k") + tuple(extra):
+    for n in tuple(n for n in ("x", "y", "z", "k") if n not in skip) + tuple(extra):
         nodes += [("T", n + "="), ("V", n), ("T", ";")]
     nodes.append(("T", "]"))
     return tuple(nodes)
@@ -69,7 +69,7 @@ def data_spec(role, bound, passes):
 class Case:
     """one member of the family; fields are the enumerated choices"""
 
-    __slots__ = ("p", "w", "o", "v", "i", "b", "bkind", "s", "n", "pass_o", "pass_i", "only_o", "only_i", "body", "data_alias", "default_alias", "deep")
+    __slots__ = ("p", "w", "o", "v", "i", "b", "bkind", "s", "n", "pass_o", "pass_i", "only_o", "only_i", "body", "data_alias", "default_alias", "deep", "loop", "vloop")
 
     def key(self):
         return tuple(getattr(self, f) for f in self.__slots__)
@@ -88,7 +88,10 @@ def build(case, ctxvals):
     else:
         default_body = reads("default")
     slot = ("Slot", "s", "", slot_data, default_body)
-    inner_tpl = reads("inner") + wrap_with("z" if c.n else None, "N", [slot])
+    vloop = getattr(c, "vloop", None)
+    # agnostic corner (i): the variable of a loop around a component tag is (deliberately) visible inside the
+    # isolated component; the inner template therefore does not read that name
+    inner_tpl = reads("inner", skip=(vloop,) if vloop else ()) + wrap_with("z" if c.n else None, "N", [slot])
     inner = CompSpec("inner", inner_tpl, data_spec("i", c.i, c.pass_i))
     # inner tag inside the outer template
     if c.body == "none":
@@ -107,13 +110,23 @@ def build(case, ctxvals):
             body = (fill,)
         elif c.bkind == "for":
             body = (("For", c.b, val("b", c.b), (fill,)),)
+        elif c.bkind == "for>with":  # loop outside, with inside: the with is nearer
+            body = (("For", c.b, val("b", c.b), (("With", c.b, "'%s'" % val("c", c.b), (fill,)),)),)
+        elif c.bkind == "with>for":
+            body = (("With", c.b, "'%s'" % val("c", c.b), (("For", c.b, val("b", c.b), (fill,)),)),)
         else:
             body = (("With", c.b, "'%s'" % val("b", c.b), (fill,)),)
     inner_tag = ("Comp", "inner", ((("k", "x"),) if c.pass_i else ()), c.only_i, body)
-    outer_tpl = reads("outer") + wrap_with(c.v, val("v", c.v) if c.v else None, [inner_tag])
+    around_inner = wrap_with(c.v, val("v", c.v) if c.v else None, [inner_tag])
+    if vloop:  # a loop around the (with around the) inner tag, binding a name that fills read
+        around_inner = (("For", vloop, val("l", vloop), tuple(around_inner)),)
+    outer_tpl = reads("outer") + tuple(around_inner)
     outer = CompSpec("outer", outer_tpl, data_spec("o", c.o, c.pass_o))
     outer_tag = ("Comp", "outer", ((("k", "x"),) if c.pass_o else ()), c.only_o, None)
     page_nodes = wrap_with(c.w, val("w", c.w) if c.w else None, [outer_tag])
+    if getattr(c, "loop", False):
+        # an enclosing loop whose variable nobody reads (agnostic corner i): only its *presence* matters
+        page_nodes = (("For", "u", "1", tuple(page_nodes)),)
     comps = {"outer": outer, "inner": inner}
     if c.deep:
         # one level deeper: the page renders `top`, whose template holds the unit
@@ -149,6 +162,8 @@ def cases(tier, mode):
                                         collides = nm in (p, o, i, w, v)
                                         if mode == "django" or not collides:
                                             b_opts.append((nm, "with"))
+                                    if mode == "django" or not any(nm in (p, o, i, w, v) for nm in ("x",)):
+                                        b_opts += [("x", "for>with"), ("x", "with>for")]
                                     alias_opts = [(False, False), (True, False), (False, True), (True, True)]
                                     s_opts = [None, "x"]
                                 for (b, bkind), (da, dfa), s in itertools.product(b_opts, alias_opts, s_opts):
@@ -159,7 +174,85 @@ def cases(tier, mode):
                                         c.p, c.w, c.o, c.v, c.i, c.b, c.bkind, c.s, c.n = p, w, o, v, i, b, bkind, s, n
                                         c.pass_o, c.pass_i, c.only_o, c.only_i = pass_o, pass_i, only_o, only_i
                                         c.body, c.data_alias, c.default_alias, c.deep = body, da, dfa, deep
+                                        c.loop = False
+                                        c.vloop = None
                                         yield c
+                                        if body == "fill" and not only_i and (thorough or (not da and not dfa and not pass_o and not pass_i and deep is None)):
+                                            # a loop around the inner tag (outside the with around it) binding a name the fill reads
+                                            for vl in (("x", "y") if thorough else ("x",)):
+                                                c3 = Case()
+                                                for f in Case.__slots__:
+                                                    setattr(c3, f, getattr(c, f))
+                                                c3.vloop = vl
+                                                yield c3
+                                        if (thorough or (not da and not dfa and b is None)) and (w or o):
+                                            # the same unit inside a {% for %}: with-bindings and enclosing component data
+                                            # sit right above the loop layer
+                                            c2 = Case()
+                                            for f in Case.__slots__:
+                                                setattr(c2, f, getattr(c, f))
+                                            c2.loop = True
+                                            c2.vloop = None
+                                            yield c2
+
+
+# ------------------------------------------------------------------ pass-through family
+class PCase:
+    """page -> outer(A) -> inner(B); A renders its own slot `t` inside the fill it hands to B's slot `s`,
+    and the page fills `t` with a binding between A's tag and the fill: the owner of slot `t` (A) appears
+    twice in the render nesting."""
+
+    __slots__ = ("p", "o", "i", "b", "bkind", "data_alias", "only_o", "deep", "v")
+
+    def describe(self):
+        d = {f: getattr(self, f) for f in self.__slots__}
+        d["family"] = "passthrough"
+        return d
+
+
+def build_passthrough(c, ctxvals):
+    slot_t = ("Slot", "t", "", ((("sx", "'S'"),) if c.data_alias else ()), reads("tdefault"))
+    fill_s = ("Fill", "s", None, None, reads("sfill") + (slot_t,))
+    inner = CompSpec("inner", reads("inner") + (("Slot", "s", "", (), reads("sdefault")),), data_spec("i", c.i, False))
+    inner_tag = ("Comp", "inner", (), False, (fill_s,))
+    outer = CompSpec("outer", reads("outer") + wrap_with(c.v, val("v", c.v) if c.v else None, [inner_tag]), data_spec("o", c.o, False))
+    fill_nodes = list(reads("tfill"))
+    if c.data_alias:
+        fill_nodes += [("T", "d.sx="), ("V", "d.sx"), ("T", ";")]
+    fill_t = ("Fill", "t", "d" if c.data_alias else None, None, tuple(fill_nodes))
+    if c.b is None:
+        body = (fill_t,)
+    elif c.bkind == "for":
+        body = (("For", c.b, val("b", c.b), (fill_t,)),)
+    else:
+        body = (("With", c.b, "'%s'" % val("b", c.b), (fill_t,)),)
+    page_nodes = (("Comp", "outer", (), c.only_o, body),)
+    comps = {"outer": outer, "inner": inner}
+    if c.deep:
+        comps["top"] = CompSpec("top", reads("top") + tuple(page_nodes), {"x": ("const", "T")})
+        page_nodes = (("Comp", "top", (), False, None),)
+    ctx = {}
+    if c.p:
+        ctx[c.p] = ctxvals[0] if c.p == "x" else ctxvals[1]
+    ctx["q"] = ctxvals[2]
+    return Program(tuple(page_nodes), comps, ctx)
+
+
+def passthrough_cases(tier, mode):
+    for p, o, i, v in itertools.product(BIND, BIND, BIND, BIND):
+        for only_o in (False, True):
+            if mode == "django" and only_o:
+                continue  # agnostic (iii)
+            for deep in (None, "data"):
+                b_opts = [(None, None), ("x", "for"), ("y", "for")]
+                for nm in NAMES:
+                    collides = nm in (p, o, i, v)
+                    if mode == "django" or not collides:
+                        b_opts.append((nm, "with"))
+                for (b, bkind), da in itertools.product(b_opts, (False, True)):
+                    c = PCase()
+                    c.p, c.o, c.i, c.v, c.b, c.bkind, c.data_alias, c.only_o, c.deep = p, o, i, v, b, bkind, da, only_o, deep
+                    yield c
 
 
 def classify(exp_out, got_out):
@@ -195,22 +288,27 @@ def context_probe(prog, h):
     return None
 
 
+def build_any(case, ctxvals):
+    return build_passthrough(case, ctxvals) if isinstance(case, PCase) else build(case, ctxvals)
+
+
 def worker(w, W, payload):
     tier, mode = payload
     boot.set_components_setting(context_behavior=mode)
     h = Harness()
     agg = par.Agg()
     i = -1
-    for case in cases(tier, mode):
+    for case in itertools.chain(cases(tier, mode), passthrough_cases(tier, mode)):
         i += 1
         if i % W != w:
             continue
         agg.states += 1
-        collide = len([r for r in (case.p, case.w, case.o, case.v, case.i, case.b) if r == "x"]) > 1 or len([r for r in (case.p, case.w, case.o, case.v, case.i, case.b) if r == "y"]) > 1
+        roles = (case.p, getattr(case, "w", None), case.o, case.v, case.i, case.b)
+        collide = len([r for r in roles if r == "x"]) > 1 or len([r for r in roles if r == "y"]) > 1
         if collide:
             agg.nontrivial += 1
         for run, ctxvals in enumerate((("P", "p", "q1"), ("R", "r", "q2"))):
-            prog = build(case, ctxvals)
+            prog = build_any(case, ctxvals)
             exp, _ = model_outcome(prog, mode)
             if run == 0:
                 h.install(prog)
@@ -229,13 +327,13 @@ def worker(w, W, payload):
                 break
         else:
             if agg.states % 7 == 0:
-                prob = context_probe(build(case, ("P", "p", "q1")), h)
+                prob = context_probe(build_any(case, ("P", "p", "q1")), h)
                 agg.transitions += 1
                 if prob:
                     agg.fail(f"{mode}:caller-context", f"[{mode}] {prob}", {"mode": mode, "case": case.describe(), "ctxvals": ["P", "p", "q1"]})
         boot.clear_render_registries()
         if agg.states == 11 and w == 3:
-            prog = build(case, ("P", "p", "q1"))
+            prog = build_any(case, ("P", "p", "q1"))
             agg.sample({"mode": mode, "case": case.describe(), "page": prog.page_source(), "components": {n: c.source() for n, c in prog.comps.items()}})
     h.uninstall()
     return agg
@@ -257,10 +355,11 @@ def run(ctx):
 def replay(ctx, case):
     mode = case["mode"]
     boot.set_components_setting(context_behavior=mode)
-    c = Case()
+    c = PCase() if case["case"].get("family") == "passthrough" else Case()
     for k, v in case["case"].items():
-        setattr(c, k, v)
-    prog = build(c, tuple(case["ctxvals"]))
+        if k != "family":
+            setattr(c, k, v)
+    prog = build_any(c, tuple(case["ctxvals"]))
     h = Harness()
     h.install(prog)
     exp, _ = model_outcome(prog, mode)
